@@ -176,7 +176,7 @@ PROPS["C09"]["stages"].append(_c09_wordcount_stage())
 
 # C01, crash stages: the inputs of every other family are also totality tests. Without these stages a panic on,
 # say, a generated table would only be logged by C18 as "crashed, judged by C01" while C01 never sees that input.
-_SLOW_GEN = {"C14_quick", "C17_conv", "C18_quick", "C19_full", "PN_grid_q", "C15_q_all", "C15_q_colon", "C15_q_seplong", "C16_q3"}
+_SLOW_GEN = {"PN_q2_q", "C14_quick", "C17_conv", "C18_quick", "C19_full", "PN_grid_q", "C15_q_all", "C15_q_colon", "C15_q_seplong", "C16_q3"}
 
 
 def _crash_stage(pid, st, quick_n, thorough_n):
